@@ -22,7 +22,7 @@ SETUP = ["clock", "listener callback=1",
          "m fam=br op=loadall rules=a1@r1@e2,a2@r1@r5,a3@r1@s5",
          "m fam=sys op=loadall rules=a1@x@c3"]
 
-POOL = {"flow": ["t3", "t5", "w9", "xneg"], "iso": ["c1", "c2", "xzero"], "hs": ["q2", "q4", "c3", "xdur"], "br": ["e2", "r5", "s5", "xivl"], "sys": ["q5", "c3", "l5", "xneg"]}
+POOL = {"flow": ["t3", "t5", "w9", "xneg"], "iso": ["c1", "c2", "xzero"], "hs": ["q2", "q4", "c3", "xdur"], "br": ["e2", "e3", "r5", "s5", "xivl"], "sys": ["q5", "c3", "l5", "xneg"]}
 
 
 def atoms():
@@ -44,6 +44,9 @@ def atoms():
             ops.append(f"m fam={fam} op=loadres res=r1 rules=c9@r1@{kx}")          # only invalid
             ops.append(f"m fam={fam} op=clearres res=r1")
         ops.append(f"m fam={fam} op=loadall rules=d1@r1@{k0}")
+        ops.append(f"m fam={fam} op=loadall rules=d1@r1@{k1}")                       # one parameter changed: the old controller's statistic is taken over, the old controller retired
+        if fam != "sys":
+            ops.append(f"m fam={fam} op=loadres res=r1 rules=d1@r1@{k0}")           # the same through load-for-resource
         ops.append(f"m fam={fam} op=clear")
         cases.append((f"mgr-{fam}", ops))
     # entries: pass, block, error completions tripping the breaker, probe after the retry time, recovery
